@@ -74,6 +74,7 @@ func env() []string {
 // is then built against that scratch worktree instead of /repo, into a separate bin/work/evidence
 // area, so that /repo is not disturbed. Registered checks never set it.
 var myBin = map[string]string{}
+var devOnly = ""
 var altRepo = ""
 var altTag = ""
 
@@ -131,7 +132,17 @@ func build(mode string) error {
 		args = append(args, "-modfile="+mf)
 	}
 	tmp := fmt.Sprintf("%s.tmp.%d", binName(mode), os.Getpid())
-	args = append(args, "-tags", tags, "-o", tmp, "./cmd/vchild")
+	target := "./cmd/vchild"
+	if devOnly != "" {
+		// development aid: link only one property package so that a half-written package of
+		// another property cannot break this build. Registered checks never set VERIF_DEV_ONLY.
+		dir := filepath.Join(root, "harness", "cmd", "_dev_"+devOnly)
+		os.MkdirAll(dir, 0755)
+		src, _ := os.ReadFile(filepath.Join(root, "harness", "cmd", "vchild", "main.go"))
+		os.WriteFile(filepath.Join(dir, "main.go"), []byte(strings.Replace(string(src), `_ "verif/props"`, `_ "verif/props/`+devOnly+`"`, 1)), 0644)
+		target = "./cmd/_dev_" + devOnly
+	}
+	args = append(args, "-tags", tags, "-o", tmp, target)
 	cmd := exec.Command("go", args...)
 	cmd.Dir = filepath.Join(root, "harness")
 	cmd.Env = env()
@@ -436,6 +447,9 @@ func main() {
 	}
 	if rp != nil {
 		tier, seed = rp.Tier, rp.Seed
+	}
+	if os.Getenv("VERIF_DEV_ONLY") != "" {
+		devOnly = strings.ToLower(prop)
 	}
 	plan, ok := plans[prop]
 	if !ok {
